@@ -221,6 +221,8 @@ func ProfileFor(prop, tier string, seed uint64) *Profile {
 		pf.WFail = 30
 		pf.WRestart = 6
 		pf.Boundary = 3
+		pf.FlushImgs = 2 // mostly the flush right after a refused statement, torn before the header
+		pf.StrictFlushOnly = true
 		pf.Stmts = [2]int{10, 40}
 		pf.TickModes = []string{"none", "each", "random"}
 	case "C15":
